@@ -277,3 +277,64 @@ def split_traces(path, is_reset):
             cur.append(line)
     if cur:
         yield start, cur
+
+
+def cfg_text(spec, consts, invs=(), view=None, post=None, props=()):
+    t = ["SPECIFICATION " + spec] + (["CONSTANTS"] if consts else [])
+    for k, v in consts.items():
+        t.append("  %s = %s" % (k, v) if not str(v).startswith("<-") else "  %s %s" % (k, v))
+    if view:
+        t.append("VIEW " + view)
+    if invs:
+        t.append("INVARIANTS " + " ".join(invs))
+    if props:
+        t.append("PROPERTIES " + " ".join(props))
+    if post:
+        t.append("POSTCONDITION " + post)
+    t.append("CHECK_DEADLOCK FALSE")
+    return "\n".join(t) + "\n"
+
+
+def validate_traces(run, module, consts, invs, trace_path, label, max_reject=4, spec="TSpec"):
+    """Validates a concatenated ndjson trace file with TLC; returns list of rejected runs (dicts). Rejected runs are
+    cut out and the rest re-validated so one bad trace does not hide the others."""
+    rejected = []
+    path = os.path.join(run.work, "trace.ndjson")
+    if os.path.abspath(trace_path) != path:
+        os.replace(trace_path, path)
+    for attempt in range(max_reject + 1):
+        lines = open(path).read().splitlines()
+        if not lines:
+            break
+        run.write("TR.cfg", cfg_text(spec, consts, invs=invs, post="TraceAccepted"))
+        r = run.tlc(module, "TR.cfg", workers=1, timeout=1500)
+        nruns = len({json.loads(l).get("run") for l in lines})
+        bad_line = None
+        why = None
+        if r.rejected_at is not None:
+            bad_line, why = r.rejected_at, "no behaviour of the specification matches the recorded event"
+        elif r.violated:
+            # the invariant failed in the state reached after consuming some prefix; find l from the counterexample
+            import re
+            ls = re.findall(r"/\\ l = (\d+)", r.counterexample())
+            bad_line = (int(ls[-1]) - 1) if ls else 1
+            why = "invariant %s violated by the recorded run" % r.violated
+        elif not r.ok:
+            raise Infra("trace validation (%s) failed to run: %s\n%s" % (label, r.error, r.out[-3000:]))
+        if bad_line is None:
+            run.traces_validated += nruns
+            run.events_validated += len(lines)
+            break
+        bad_line = max(1, min(bad_line, len(lines)))
+        ev = json.loads(lines[bad_line - 1])
+        rid = ev.get("run")
+        tr = [json.loads(l) for l in lines if json.loads(l).get("run") == rid]
+        first = next(i for i, l in enumerate(lines) if json.loads(l).get("run") == rid)
+        rejected.append({"run": rid, "reset": tr[0], "line_in_run": bad_line - first, "event": ev, "why": why,
+                         "prefix": tr[max(0, bad_line - first - 12):bad_line - first + 1], "trace": tr if len(tr) < 400 else tr[:bad_line - first + 1][-400:]})
+        run.traces_validated += max(0, nruns - 1) if attempt == max_reject else 0
+        with open(path, "w") as f:
+            f.write("\n".join(l for l in lines if json.loads(l).get("run") != rid) + "\n")
+    return rejected
+
+
